@@ -1,3 +1,97 @@
 import Driver.Common
-/-! Model driver for C11 — not built yet. -/
-def main (_args : List String) : IO Unit := pure ()
+import Logrange.Model.WaitLts
+import Logrange.Generated.C11
+/-! Model driver for C11 (waiting at the end of a stream). Requests:
+
+* `sched <stored> <tok>*` — one partition, one waiter whose reader has read all `stored` records and got EOF.
+  Tokens in the order the harness produced them: `A<k>` (writer appends `k` records), `F` (flush: confirm + the whole
+  `OnNewData`, as far as enabled), `S` (the reader leaves the hook: `start`, `inc`, locked check, subscribe — as far as
+  enabled). At the end everything enabled on the writer side and the waiter's wake/locked check are run to a fixed point.
+  → `woken` (WaitNewData returns nil) | `asleep` (keeps waiting: only the timeout ends it) | `notstarted`
+* `lts <nWaiters> <stored> <label>*` — raw labels: `a<k> c l x s<w>:<pos> i<w> k<w> u<w> w<w> n<w> r<w>`
+  → `cfrmd=<n> pend=<n>/<n> lock=<w|-> <pc>:<pos>:<sub>:<woke>*`
+* `queryloop <wt> <lim> <fuel> <visible e,e,…|-> <future>*` — futures: `T` (the wait times out) | `D:<e,e,…|->`
+  → `ok <e,e,…|->` | `outOfFuel`
+* `queryempty <wt> <lim> <fuel>` — the empty cursor as the source defines it now → same answers
+* `eofpos <idx> <c1> <c2>` → `eof <pos>` | `rec <idx>`
+-/
+open Go Logrange.WaitLts Driver
+
+def nat (s : String) : Nat := s.toNat?.getD 0
+
+def tryS (st : State) (l : Label) : State := (step st l).getD st
+
+def writerSettle (st : State) : State := [Label.loadWaiters, .closeAll].foldl tryS st
+
+/-- run the waiter and the writer side to a fixed point (bounded: every round either changes something or not) -/
+def settle (st : State) : Nat → State
+  | 0 => st
+  | n+1 => settle ([Label.loadWaiters, .closeAll, .inc 0, .lockCheck 0, .subscribe 0, .loadWaiters, .closeAll, .wake 0].foldl tryS st) n
+
+def parseNats (s : String) : List Nat := if s == "-" then [] else (s.splitOn ",").map nat
+def showNats (l : List Nat) : String := if l.isEmpty then "-" else ",".intercalate (l.map toString)
+
+def showPc : Pc → String
+  | .idle => "idle" | .started => "started" | .counted => "counted" | .holding => "holding"
+  | .asleep => "asleep" | .returning => "returning"
+
+def parseLabel (t : String) : Option Label :=
+  let rest := (t.drop 1).toString
+  match t.front with
+  | 'a' => some (.append (nat rest))
+  | 'c' => some .confirm
+  | 'l' => some .loadWaiters
+  | 'x' => some .closeAll
+  | 's' => match rest.splitOn ":" with
+    | [w, p] => some (.start (nat w) (nat p))
+    | _ => none
+  | 'i' => some (.inc (nat rest))
+  | 'k' => some (.lockCheck (nat rest))
+  | 'u' => some (.subscribe (nat rest))
+  | 'w' => some (.wake (nat rest))
+  | 'n' => some (.cancel (nat rest))
+  | 'r' => some (.ret (nat rest))
+  | _ => none
+
+def showQ : QRes → String
+  | .ok evs => s!"ok {showNats evs}"
+  | .outOfFuel => "outOfFuel"
+
+def parseFuture (t : String) : Option (List Nat) :=
+  if t == "T" then none else some (parseNats ((t.drop 2).toString))
+
+def handle (u : Unit) (toks : List String) : Unit × String :=
+  match toks with
+  | "sched" :: stored :: ts =>
+    let k := nat stored
+    let st := ts.foldl (fun st t =>
+      if t == "F" then writerSettle (tryS st .confirm)
+      else if t == "S" then [Label.start 0 k, .inc 0, .lockCheck 0, .subscribe 0].foldl tryS st
+      else if t.front == 'A' then tryS st (.append (nat ((t.drop 1).toString)))
+      else st) (init 1 k)
+    let st := settle st 4
+    match st.ws[0]? with
+    | some x =>
+      (u, if x.pc == .returning && x.woke then "woken" else if x.pc == .asleep then "asleep"
+          else if x.pc == .idle then "notstarted" else s!"stuck:{showPc x.pc}")
+    | none => (u, "bad-op")
+  | "lts" :: n :: stored :: ls =>
+    let st := ls.foldl (fun st t => match parseLabel t with
+      | some l => tryS st l
+      | none => st) (init (nat n) (nat stored))
+    let lk := match st.lock with
+      | some w => toString w
+      | none => "-"
+    (u, s!"cfrmd={st.cfrmd} pend={st.pendNotif}/{st.pendClose} lock={lk} " ++
+      " ".intercalate (st.ws.map (fun x => s!"{showPc x.pc}:{x.pos}:{if x.sub then 1 else 0}:{if x.woke then 1 else 0}")))
+  | "queryloop" :: wt :: lim :: fuel :: vis :: futs =>
+    (u, showQ (queryLoop scriptCur (nat wt) (nat lim) (nat fuel) (nat lim) (parseNats vis, futs.map parseFuture) []))
+  | ["queryempty", wt, lim, fuel] =>
+    (u, showQ (queryLoop (emptyCur Logrange.Generated.C11.emptyCursorWaitReturnsAtOnce) (nat wt) (nat lim) (nat fuel) (nat lim) () []))
+  | ["eofpos", i, c1, c2] =>
+    match jget (nat i) (nat c1) (nat c2) with
+    | (.eof, p) => (u, s!"eof {p}")
+    | (.record r, _) => (u, s!"rec {r}")
+  | _ => (u, "bad-op")
+
+def main (args : List String) : IO Unit := Driver.run handle () args
